@@ -117,6 +117,9 @@ def gen_consts(ctx, exe):
     L.append("/-- `sizeof` of what the emission allocates from the script's arena -/")
     for k in ("szStateScript", "szCatchBlock", "szEntry", "szPtr", "szSourcePos"):
         L.append("def %s : Nat := %s" % (k, f[k]))
+    L.append("/-- `std::numeric_limits<op_parmNum_t>::max()`, `…<op_arrayParmNum_t>::max()`: what `CheckOperandCount` compares with -/")
+    for k in ("parmNumMax", "arrayParmNumMax"):
+        L.append("def %s : Nat := %s" % (k, f[k]))
     L.append("def opPrevious : Nat := %s" % f["opPrevious"])
     L.append("def opMax : Nat := %s" % f["opMax"])
     L.append("/-- `OpcodeInfo[].opcodelength` -/")
@@ -404,6 +407,13 @@ def family_cases(thorough):
             for order in ("bc", "cb", "mix"):
                 for nest in ((0, 2) if thorough else (0, 1)):
                     add("break-continue", g.fam_break_continue(nb, nc, loop, order, nest))
+    # CheckOperandCount: lists around the width of the count operand
+    for kind in ("cmd", "cmdx", "mcmd", "mcmdx", "thread"):
+        for n in ((6, 254, 255, 256, 257, 300, 1000) if thorough else (254, 255, 256, 257)):
+            add("param-limit", g.fam_param_limit(kind, n))
+    for kind in ("carr", "marr"):
+        for n in ((2, 255, 256, 65534, 65535, 65536, 65537) if thorough else (2, 255, 256, 1000)):
+            add("param-limit", g.fam_param_limit(kind, n))
     for i, src in enumerate(g.fam_lexical()):
         add("lexical", src)
     ns = [1, 2, 50, 99, 100, 101] if thorough else [2, 99, 100, 101]
